@@ -180,7 +180,7 @@ impl Property for P {
     }
     fn cases(tier: Tier) -> u64 {
         match tier {
-            Tier::Quick => 400_000,
+            Tier::Quick => 1_200_000,
             Tier::Thorough => 24_000_000,
         }
     }
@@ -254,4 +254,10 @@ impl Property for P {
             failure: None,
         })
     }
+}
+
+pub fn decode(data: &[u8]) -> Case {
+    let mut r = crate::fuzzdec::Reader::new(data);
+    let mode = r.u8();
+    Case::Any { text: crate::fuzzdec::text(mode, r.rest()) }
 }
